@@ -203,6 +203,7 @@ func scenLife(e *Env) func() {
 	e.Cfg.PoolAdversarial = e.Chance(30)
 	r := &lifeRun{e: e, p: p, recs: map[string]*lifeConnRec{}, byPtr: map[net.Conn]*lifeConnRec{}, shutdownStart: -1, shutdownRet: -1}
 	e.Cfg.Monitor = r.monitor
+	e.Cfg.StackProbe = "workerPool).workerFunc"
 	return r.run
 }
 
@@ -210,14 +211,17 @@ func (r *lifeRun) monitor() {
 	if r.s == nil {
 		return
 	}
-	if n := simrt.CensusMatch("workerPool.getCh"); n > r.workersPeak {
+	// (a worker is the goroutine getCh starts for as long as it runs workerFunc: what it does
+	// after workerFunc has returned - handing its channel back to a pool - is no worker's work
+	// and the pool rightly does not count it any more)
+	if n := simrt.CensusInside("workerPool.getCh"); n > r.workersPeak {
 		r.workersPeak = n
 	}
 	if c := r.s.GetCurrentConcurrency(); c > r.concPeak {
 		r.concPeak = c
 	}
 	if r.p.TrickleCheckMs > 0 && !r.trickleSeen && Now() >= 2*time.Second+ms(r.p.TrickleCheckMs) {
-		r.trickleSeen, r.trickleWorkers = true, simrt.CensusMatch("workerPool.getCh")
+		r.trickleSeen, r.trickleWorkers = true, simrt.CensusInside("workerPool.getCh")
 	}
 }
 
